@@ -35,11 +35,13 @@
 (* the ideal values (TRUE, TRUE) are what the statement needs.             *)
 (*   CheckTrailer   : pinProgress looks at X-Stream-Error after EOF        *)
 (*   UpdateWatchdog : a stalled pin/update is abandoned after some time    *)
+(*   WaitOrigins    : Pin waits for the swarm/connect answers before it    *)
+(*                    goes on (as coded: it does not; they are best-effort)*)
 (*   Bound          : at most this many origins get a swarm/connect (10)   *)
 (***************************************************************************)
 EXTENDS Integers, Sequences, FiniteSets, TLC
 
-CONSTANTS CheckTrailer, UpdateWatchdog, Bound
+CONSTANTS CheckTrailer, UpdateWatchdog, WaitOrigins, Bound
 
 PinSt == {"none", "direct", "recursive", "both"}
 Modes == {"recursive", "direct", "depth"}   \* MaxDepth -1, 0, >0
@@ -109,15 +111,17 @@ Resp(kind, msg, msgs, end) ==
     [net EXCEPT !.st = "resp", !.kind = kind, !.msg = msg, !.msgs = msgs, !.end = end]
 
 Inputs(norigs, intfs) ==
-    {[op |-> "pin", mode |-> m, upd |-> u, norig |-> n, prior |-> [c1 |-> p1, c2 |-> p2], intf |-> i] :
-        m \in Modes, u \in BOOLEAN, n \in norigs, p1 \in PinSt, p2 \in PinSt, i \in intfs}
+    {[op |-> "pin", mode |-> m, upd |-> u, norig |-> n, ohang |-> h, prior |-> [c1 |-> p1, c2 |-> p2], intf |-> i] :
+        m \in Modes, u \in BOOLEAN, n \in norigs, h \in BOOLEAN, p1 \in PinSt, p2 \in PinSt, i \in intfs}
     \cup
-    {[op |-> o, mode |-> m, upd |-> FALSE, norig |-> 0, prior |-> [c1 |-> p1, c2 |-> "none"], intf |-> i] :
+    {[op |-> o, mode |-> m, upd |-> FALSE, norig |-> 0, ohang |-> FALSE, prior |-> [c1 |-> p1, c2 |-> "none"], intf |-> i] :
         o \in {"unpin", "lscid"}, m \in Modes, p1 \in PinSt, i \in intfs}
 
 \* the update source only matters when an update is asked; unpin has no mode;
-\* a look-up is never interfered with.
+\* a look-up is never interfered with.  ohang: the daemon never answers the
+\* swarm/connect requests of this pin (they hang until the caller goes away).
 Relevant(i) ==
+    /\ i.norig = 0 => ~i.ohang
     /\ (i.op = "pin" /\ ~i.upd) => i.prior.c2 = "none"
     /\ i.op = "unpin" => i.mode = "recursive"
     /\ i.op = "lscid" => i.intf = "keep"
@@ -257,10 +261,16 @@ BgConnect(o) ==
     /\ swarm' = swarm \cup {o} /\ bg' = bg \ {o}
     /\ UNCHANGED <<inp, script, pins, pc, net, reqs, result, status, lastProg, age>>
 
+\* As coded the goroutines are left alone.  WaitOrigins: a wg.Wait() here - every
+\* swarm/connect has been sent and answered; a daemon that hangs on them never
+\* answers, and only the caller's context ends the wait.
 AfterSpawn ==
     /\ pc = "spawned"
     /\ script.free \/ bg \cap script.swarm = {}
-    /\ Goto(IF inp.upd THEN "ls2" ELSE "add")
+    /\ WaitOrigins => bg = {}
+    /\ IF WaitOrigins /\ inp.ohang /\ swarm # {}
+       THEN Finish("hung", "")
+       ELSE Goto(IF inp.upd THEN "ls2" ELSE "add")
 
 SendLs2 == pc = "ls2" /\ Send(Req("ls", "c2", TypOf(inp.mode), "", ""), "wLs2")
 
@@ -367,6 +377,15 @@ StallGivesUpOn(R, eps) ==
     => R.out.res = "err"
 StallGivesUp(R) == StallGivesUpOn(R, {"add", "update"})
 
+\* origins are best effort: whatever the swarm/connect requests (and the
+\* look-ups, which have their own timeout) do, a pin whose pin/add or
+\* pin/update does not stall returns by itself - with that request's outcome -
+\* and never only because the caller's context ended ("hung").  Together with
+\* StallGivesUp: a pin never needs the caller to end it.
+OriginsBestEffort(R) ==
+    (R.in.op = "pin" /\ ~\E j \in ReqIdx(R) : Rq(R, j).ep \in {"add", "update"} /\ Rq(R, j).beh \in Stalls)
+    => R.out.res # "hung"
+
 \* pin/update only from the asked source, only when that is recursively pinned
 UpdateOnlyIfRecursive(R) ==
     \A j \in ReqIdx(R) : Rq(R, j).ep = "update" =>
@@ -381,13 +400,14 @@ SourceKept(R) ==
         /\ R.out.pins.c2 = R.in.prior.c2
 
 PredNames == <<"SuccessSound", "FailureReported", "NoRedundantRequest", "UnpinIdempotent",
-               "StallGivesUp", "UpdateOnlyIfRecursive", "SourceKept">>
+               "StallGivesUp", "OriginsBestEffort", "UpdateOnlyIfRecursive", "SourceKept">>
 Pred(name, R) ==
     CASE name = "SuccessSound" -> SuccessSound(R)
       [] name = "FailureReported" -> FailureReported(R)
       [] name = "NoRedundantRequest" -> NoRedundantRequest(R)
       [] name = "UnpinIdempotent" -> UnpinIdempotent(R)
       [] name = "StallGivesUp" -> StallGivesUp(R)
+      [] name = "OriginsBestEffort" -> OriginsBestEffort(R)
       [] name = "UpdateOnlyIfRecursive" -> UpdateOnlyIfRecursive(R)
       [] OTHER -> SourceKept(R)
 Broken(R) == {PredNames[k] : k \in {k \in DOMAIN PredNames : ~Pred(PredNames[k], R)}}
@@ -398,6 +418,7 @@ InvFailureReported == Done => FailureReported(Obs)
 InvNoRedundant    == Done => NoRedundantRequest(Obs)
 InvUnpinIdempotent == Done => UnpinIdempotent(Obs)
 InvStallGivesUp   == Done => StallGivesUp(Obs)
+InvOriginsBestEffort == Done => OriginsBestEffort(Obs)
 InvStallGivesUpAdd == Done => StallGivesUpOn(Obs, {"add"})
 InvUpdateOnlyIfRecursive == Done => UpdateOnlyIfRecursive(Obs)
 InvSourceKept     == Done => SourceKept(Obs)
